@@ -271,6 +271,8 @@ pub struct Report {
     pub inconclusive: Vec<String>,
     known: Vec<crate::findings::Known>,
     pub extra: BTreeMap<String, Value>,
+    /// publish every generated case to the abort journal (for properties whose cases are expensive anyway)
+    pub journal_cases: bool,
 }
 
 const MAX_SAMPLES_PER_SUB: usize = 3;
@@ -290,6 +292,7 @@ impl Report {
             inconclusive: Vec::new(),
             known,
             extra: BTreeMap::new(),
+            journal_cases: false,
         }
     }
 
@@ -410,6 +413,7 @@ impl Report {
         let merged: Mutex<(SubStats, Vec<(Fail, Value)>)> = Mutex::new((SubStats::default(), Vec::new()));
         let known_sigs: Vec<String> = self.known.iter().map(|k| k.sig.clone()).collect();
         let ctx = self.ctx.clone();
+        let journal = self.journal_cases;
 
         std::thread::scope(|scope| {
             for w in 0..threads {
@@ -454,15 +458,27 @@ impl Report {
                                 }
                                 if info.nontrivial {
                                     let h = hash_case(&value);
-                                    if local.nontrivial.insert(h) && local.samples.len() < MAX_SAMPLES_PER_SUB {
-                                        local.samples.push(serde_json::to_value(&value).unwrap_or(Value::Null));
+                                    if local.nontrivial.insert(h) {
+                                        crate::journal::NONTRIVIAL.fetch_add(1, Ordering::Relaxed);
+                                        if local.samples.len() < MAX_SAMPLES_PER_SUB {
+                                            local.samples.push(serde_json::to_value(&value).unwrap_or(Value::Null));
+                                        }
                                     }
                                 }
                             }
+                            if journal {
+                                // abort journal: a replay document for this case, written out only if the process dies
+                                let doc = json!({"property": ctx.id, "sub": sub, "sig": "process-abort", "detail": "the checker process was aborted while judging this case", "case": &value});
+                                crate::journal::publish_doc(doc.to_string().as_bytes());
+                            }
+                            crate::journal::EVALUATIONS.fetch_add(1, Ordering::Relaxed);
                             let outcome = match guard(|| check(&value)) {
                                 Ok(r) => r,
                                 Err(p) => Err(Fail::new("panic:oracle-or-code", format!("unexpected panic: {}", p))),
                             };
+                            if journal {
+                                crate::journal::clear();
+                            }
                             match outcome {
                                 Ok(()) => Ok(()),
                                 Err(f) => {
